@@ -23,7 +23,14 @@ Three correspondences against the real code (in-process, no fakes):
     lists and dictionaries (literal floats included); compared: raises / the converted document.
 The generated workflows of B contain aggregating (workflowAttributes.aggregate: true) and replicating
 (workflowAttributes.replicate: N) components, the structural faults are placed through them too, and B also holds the
-scalar-for-scalar WrongType faults (a float / string / dictionary for an int, float, bool or str option)."""
+scalar-for-scalar WrongType faults (a float / string / dictionary for an int, float, bool or str option).
+"Remove a variable" is applied to every global AND to every component-level variable of every component
+(Model.mutate (RemoveCompVar i n)); generated components derive variables from their own variables and use the inner
+one only through the derived one, over names that same-stage siblings define too (the variables of a component are
+private to it), so the removed variable is often reached only INDIRECTLY while a sibling still defines it.
+ S. (predicate only - stage-level variables are outside the Coq model) workflows whose STAGES define variables, with the
+    same names in several stages and components: a well-formed one loads; removing a stage-level, component-level or
+    global variable that a component still reaches from what it uses is rejected."""
 import copy
 import json
 import os
@@ -53,6 +60,9 @@ ASSUMPTIONS = [
     'them); int()/float() of a string are modelled for the plain spellings [+-]?[0-9]+ and digits with at most one '
     'point (no exponent, inf/nan, blanks, underscores); values coerced to a backend/environment/interpreter/executable '
     'NAME are not explored (the lookup of the name is outside the model)',
+    'stage-level variables (variables.default.stages.N) are outside the Coq model: stream S evaluates the property '
+    'predicate only, with the harness oracle "a name is defined for a component when the globals, the variables of its '
+    'own stage or its own variables define it"',
     'graphFromFlowIR is loaded with primitive=False: with the default primitive=True the loader does not look for '
     'cycles at all (the property speaks about the expanded graph)',
 ]
@@ -570,8 +580,34 @@ def gen_wf(rng):
             c['vars']['lv'] = [rng.choice(gnames)] if rng.random() < 0.5 else []
         if rng.random() < 0.25:
             c['vars'][gnames[0]] = []        # shadows a global
+        # chains among the component-level variables: lw is derived from lv (label: part-%(chunk)s), lx from lw; in
+        # about half of these components the inner variable is used ONLY through the derived one.  Every component
+        # draws from the same three names, so same-stage siblings (and components of other stages) that define a
+        # variable of the same name are the rule - the variables of a component are nevertheless private to it
+        if 'lv' in c['vars'] and rng.random() < 0.6:
+            c['vars']['lw'] = ['lv'] + ([rng.choice(gnames)] if rng.random() < 0.3 else [])
+            if rng.random() < 0.3:
+                c['vars']['lx'] = ['lw']
+        elif 'lv' not in c['vars'] and rng.random() < 0.15:
+            c['vars']['lw'] = []             # a sibling's lw is derived, this one is a constant
         pool = gnames + list(c['vars'])
         c['uses'] = sorted(set(rng.sample(pool, rng.randint(0, min(2, len(pool))))))
+        derived = [k for k in ('lx', 'lw') if c['vars'].get(k)]
+        if derived and rng.random() < 0.6:
+            # the outermost derived variable is used, what it is derived from is not used directly
+            c['uses'] = sorted(set([u for u in c['uses'] if u not in ('lv', 'lw', 'lx')] + [derived[0]]))
+    # a systematic family (about 4 workflows in 10 that have a stage with two or more components): EVERY component of
+    # one stage defines lv and derives lw from it, and uses lv only through lw
+    crowded = sorted(set(c['stage'] for c in comps if sum(1 for d in comps if d['stage'] == c['stage']) > 1))
+    if crowded and rng.random() < 0.4:
+        st = rng.choice(crowded)
+        for c in comps:
+            if c['stage'] == st:
+                c['vars'].setdefault('lv', [])
+                c['vars']['lw'] = ['lv']
+                top = 'lx' if c['vars'].get('lx') else 'lw'
+                c['uses'] = sorted(set([u for u in c['uses'] if u not in ('lv', 'lw', 'lx')] + [top]))
+    for c in comps:
         # some integer-valued variables are used only as an ARRAY INDEX (%(arr)s[%(u)s]); removing such a variable
         # must be rejected exactly like removing one that is referenced directly
         c['idx_uses'] = [u for u in c['uses']
@@ -738,7 +774,7 @@ def on_cycle_through(w, i, r, idl):
     return (down & up) | {idl[i], r}
 
 
-def load_mutants(w, tier, rng, corpus=False):
+def load_mutants(w, tier, rng, corpus=False, variables_only=False):
     """ALL single-fault mutants of the well-formed workflow w at all positions:
     -> list of (fault name, faulty (must be rejected per the property), finding classes, mutant)"""
     out = []
@@ -750,7 +786,7 @@ def load_mutants(w, tier, rng, corpus=False):
         m = copy.deepcopy(w)
         return m
 
-    for i in range(n):
+    for i in (range(n) if not variables_only else []):
         # drop a component
         m = fresh()
         victim = idl[i]
@@ -821,7 +857,7 @@ def load_mutants(w, tier, rng, corpus=False):
     base_term = c_wf(base)
     repn = ([(c['opts'].get('workflowAttributes') or {}).get('replicate') for c in w['comps']
              if (c['opts'].get('workflowAttributes') or {}).get('replicate')] or [None])[0]
-    for i in range(n):
+    for i in (range(n) if not variables_only else []):
         doc = base['comps'][i]['doc']
         cand = [(pth, v) for pth in sorted(CONV_TABLE) for v in SCALAR_VALUES]
         if tier == 'quick':
@@ -856,6 +892,29 @@ def load_mutants(w, tier, rng, corpus=False):
                    and g not in c['vars'] for c in m['comps'])
         # a global that nothing mentions can be removed without harm
         out.append(('RemoveVar', used, [], finalize(m)))
+    # ---- RemoveVar on a COMPONENT-level variable (Model.mutate (RemoveCompVar i n)), every variable of every component:
+    # faulty when no global of that name becomes visible instead and the component still uses the name - directly, or
+    # only INDIRECTLY through another variable it resolves.  What the other components define is irrelevant (a loader
+    # that resolves a component with the context of a sibling visited before it accepts such a mutant; every sibling
+    # is the victim in turn, so both visiting orders are covered)
+    rc_term = c_wf(base)
+    for i, c in enumerate(w['comps']):
+        for nme in sorted(c['vars']):
+            m = fresh()
+            del m['comps'][i]['vars'][nme]
+            env = env_of(m, m['comps'][i])
+            direct = nme in c['uses']
+            indirect = any(nme in v for v in env.values())
+            faulty = nme not in w['gvars'] and (direct or indirect)
+            sib = [d for j, d in enumerate(w['comps']) if j != i and nme in d['vars']]
+            label = None
+            if faulty:
+                label = 'B:RemoveCompVar %s, %s' % (
+                    'used directly' if direct else 'used only through another variable',
+                    'defined by a same-stage sibling' if any(d['stage'] == c['stage'] for d in sib) else
+                    ('defined in another stage' if sib else 'defined nowhere else'))
+            out.append(('RemoveCompVar' if faulty else 'RemoveUnusedCompVar', faulty, [], finalize(m),
+                        (rc_term, '(RemoveCompVar %d %s)' % (i, cstr(nme))), label))
     gl = sorted(w['gvars'])
     m = fresh()
     m['gvars'][gl[0]] = [gl[-1]]
@@ -1027,6 +1086,20 @@ CORPUS_WF_AGG = {'gvars': {'g0': []},
                            {'stage': 1, 'name': 'm.n', 'refs': [(1, 'a'), (0, 'x1')], 'uses': [], 'vars': {}, 'opts': AGG}]}
 
 
+# same-stage siblings that each define `chunk` and derive `label` from it (one replicates, one aggregates, one is
+# plain; a component of the next stage does the same): removing chunk from any one of them leaves a label that
+# mentions a variable the component cannot see, whatever its siblings define and whichever is visited first
+SIBV = {'chunk': [], 'label': ['chunk']}
+CORPUS_WF_SIB = {'gvars': {'g0': []},
+                 'comps': [{'stage': 0, 'name': 'gen', 'refs': [], 'uses': ['label'], 'vars': dict(SIBV),
+                            'opts': {'workflowAttributes': {'replicate': 2}}},
+                           {'stage': 0, 'name': 'b', 'refs': [], 'uses': ['g0', 'label'], 'vars': dict(SIBV), 'opts': {}},
+                           {'stage': 0, 'name': 'x1', 'refs': [(0, 'gen')], 'uses': ['chunk'],
+                            'vars': {'chunk': [], 'tag': ['label'], 'label': ['chunk']}, 'opts': AGG},
+                           {'stage': 1, 'name': 'a', 'refs': [(0, 'x1'), (0, 'b')], 'uses': ['label'], 'vars': dict(SIBV),
+                            'opts': OPTION_SETS[1]}]}
+
+
 def explore_loads(ctx, items):
     """items: (fault name, faulty, classes, finalized workflow)"""
     terms, metas = [], []
@@ -1034,7 +1107,7 @@ def explore_loads(ctx, items):
     slow = 0.0
     for item in items:
         fault, faulty, classes, w = item[:4]
-        if len(item) > 5:
+        if len(item) > 5 and item[5]:
             ctx.count(item[5])
         flowir = render(w)
         acc, exc, reasons, problems, dt = real_load(flowir)
@@ -1086,6 +1159,134 @@ def explore_loads(ctx, items):
     ctx.extra['slowest_load_s'] = round(max(slow, ctx.extra.get('slowest_load_s', 0)), 3)
 
 
+# ------------------------------------------------------------------ S. stage-level variables (predicate only)
+# The Coq model has global and component-level variables only.  The third scope of the loader - the variables of a
+# STAGE (variables.default.stages.N), visible to the components of that stage and to nobody else - is explored against
+# the property predicate alone: a well-formed workflow loads, and "remove a variable" applied to a stage-level, a
+# component-level or a global variable that a component still reaches (directly or through other variables) from what
+# it uses is rejected with the invalid-configuration error - also when ANOTHER stage, or a component of another stage,
+# defines a variable of the same name.
+def gen_stage_wf(rng):
+    nst = rng.randint(2, 3)
+    gvars = {'g0': []}
+    if rng.random() < 0.5:
+        gvars['g1'] = ['g0']
+    svars = {}
+    for k in range(nst):
+        sv = {}
+        if rng.random() < 0.8:
+            sv['sv'] = ['g0'] if rng.random() < 0.3 else []
+            if rng.random() < 0.5:
+                sv['su'] = ['sv']
+        if rng.random() < 0.2:
+            sv['g0'] = []                    # a stage that shadows a global
+        svars[k] = sv
+    comps, names = [], list(NAMES)
+    rng.shuffle(names)
+    for k in range(nst):
+        for _ in range(rng.randint(1, 2)):
+            prev = [(c['stage'], c['name']) for c in comps if c['stage'] < k]
+            cv = {}
+            if rng.random() < 0.4:
+                cv['lv'] = []
+            if rng.random() < 0.15:
+                cv['sv'] = []                # a component that shadows (or alone defines) the stage-level name
+            visible = sorted(set(gvars) | set(svars[k]) | set(cv))
+            if rng.random() < 0.7:
+                cv['lw'] = [rng.choice([x for x in visible if x != 'g0'] or visible)]
+            pool = sorted(set(visible) | set(cv))
+            uses = set(rng.sample(pool, rng.randint(0, min(2, len(pool)))))
+            if 'lw' in cv and rng.random() < 0.7:
+                uses = set(u for u in uses if u not in cv['lw']) | {'lw'}
+            comps.append({'stage': k, 'name': names.pop(), 'refs': rng.sample(prev, min(len(prev), rng.randint(0, 1))),
+                          'uses': sorted(uses), 'vars': cv, 'opts': {}})
+    return {'gvars': gvars, 'svars': svars, 'comps': comps}
+
+
+def render_stage_wf(w):
+    d = render(finalize(copy.deepcopy({'gvars': w['gvars'], 'comps': w['comps']})))
+    d['variables']['default']['stages'] = {k: {n: var_value(v, 7 + k) for n, v in sv.items()}
+                                           for k, sv in w['svars'].items()}
+    return d
+
+
+def stage_undefined(w):
+    """some component reaches, from what it uses, a name that is defined in none of the scopes it sees"""
+    for c in w['comps']:
+        env = dict(w['gvars'])
+        env.update(w['svars'].get(c['stage'], {}))
+        env.update(c['vars'])
+        seen, todo = set(), list(c['uses'])
+        while todo:
+            x = todo.pop()
+            if x in seen:
+                continue
+            seen.add(x)
+            if x not in env:
+                return True
+            todo.extend(env[x])
+    return False
+
+
+def stage_items(rng, tier):
+    out = []
+    corpus = {'gvars': {'g0': []}, 'svars': {0: {'sv': [], 'su': ['sv']}, 1: {'sv': []}, 2: {}},
+              'comps': [{'stage': 0, 'name': 'a', 'refs': [], 'uses': ['lw'], 'vars': {'lw': ['su']}, 'opts': {}},
+                        {'stage': 1, 'name': 'b', 'refs': [(0, 'a')], 'uses': ['lw'], 'vars': {'lw': ['sv']}, 'opts': {}},
+                        {'stage': 1, 'name': 'gen', 'refs': [], 'uses': ['sv'], 'vars': {}, 'opts': {}},
+                        {'stage': 2, 'name': 'x1', 'refs': [(1, 'b')], 'uses': ['lw'], 'vars': {'sv': [], 'lw': ['sv']},
+                         'opts': {}}]}
+    for w in [corpus] + [gen_stage_wf(rng) for _ in range(3 if tier == 'quick' else 20)]:
+        out.append(('none', False, w, None))
+        muts = []
+        for k in sorted(w['svars']):
+            for n in sorted(w['svars'][k]):
+                m = copy.deepcopy(w)
+                del m['svars'][k][n]
+                elsewhere = any(n in sv for j, sv in m['svars'].items() if j != k)
+                muts.append(('StageVar', m, 'defined by another stage' if elsewhere else 'defined by no other stage'))
+        for i, c in enumerate(w['comps']):
+            for n in sorted(c['vars']):
+                m = copy.deepcopy(w)
+                del m['comps'][i]['vars'][n]
+                elsewhere = any(n in sv for j, sv in m['svars'].items() if j != c['stage'])
+                muts.append(('CompVar', m, 'defined by another stage' if elsewhere else 'defined by no other stage'))
+        for g in sorted(w['gvars']):
+            m = copy.deepcopy(w)
+            del m['gvars'][g]
+            muts.append(('Var', m, 'global'))
+        for kind, m, where in muts:
+            faulty = stage_undefined(m)
+            out.append((('Remove%s' if faulty else 'RemoveUnused%s') % kind, faulty, m,
+                        'S:Remove%s still reached, %s' % (kind, where) if faulty else None))
+    return out
+
+
+def explore_stage_loads(ctx, items):
+    for fault, faulty, w, label in items:
+        flowir = render_stage_wf(w)
+        acc, exc, reasons, problems, dt = real_load(flowir)
+        ctx.count('S:' + fault)
+        if label:
+            ctx.count(label)
+        case = {'fault': fault, 'workflow': flowir}
+        ctx.case(('S', fault, json.dumps(flowir, sort_keys=True, default=str)), fault != 'none')
+        if exc == 'HANG':
+            ctx.fail(case, 'loading a workflow with stage variables (%s) did not return within the watchdog' % fault, [])
+        elif not acc and exc != 'ExperimentInvalidConfigurationError':
+            ctx.fail(case, 'a broken workflow (%s) is rejected with %s instead of an invalid-configuration error'
+                     % (fault, exc), [])
+        elif acc and faulty:
+            ctx.fail(case, 'a workflow with the fault %s (a variable that a component still reaches is defined in no '
+                           'scope the component sees) loads with validation enabled' % fault, [])
+        elif acc and problems:
+            ctx.fail(case, 'a workflow that loads is not structurally executable: %s' % problems[0], [])
+        elif fault == 'none' and not acc:
+            ctx.disagree(case, {'accepted': acc, 'exception': exc, 'reasons': reasons}, 'well-formed by construction',
+                         'a well-formed workflow with stage-level variables is expected to load (harness oracle of the '
+                         'predicate-only stream S)')
+
+
 def base_flowir_for_schema():
     w = finalize(copy.deepcopy(CORPUS_WF))
     return render(w)
@@ -1104,7 +1305,8 @@ def run(ctx):
     convert_cases(ctx)
     schema_cases(ctx, base_flowir_for_schema())
     nwf = 6 if ctx.tier == 'quick' else 40
-    wfs = [copy.deepcopy(CORPUS_WF), copy.deepcopy(CORPUS_WF_AGG)] + [gen_wf(ctx.rng) for _ in range(nwf)]
+    wfs = [copy.deepcopy(CORPUS_WF), copy.deepcopy(CORPUS_WF_AGG), copy.deepcopy(CORPUS_WF_SIB)] + \
+        [gen_wf(ctx.rng) for _ in range(nwf)]
     items = []
     for w in wfs:
         items.append(('none', False, [], finalize(copy.deepcopy(w))))
@@ -1112,11 +1314,17 @@ def run(ctx):
             ctx.count('B:workflows with an aggregating component')
         if any((c['opts'].get('workflowAttributes') or {}).get('replicate') for c in w['comps']):
             ctx.count('B:workflows with a replicating component')
-        items.extend(load_mutants(w, ctx.tier, ctx.rng, corpus=(w is wfs[0] or w is wfs[1])))
+        # (wfs[2], the sibling corpus: in the quick tier only the faults among its variables - RemoveVar on every global
+        # and every component-level variable, CyclicVars)
+        items.extend(load_mutants(w, ctx.tier, ctx.rng, corpus=(w is wfs[0] or w is wfs[1]),
+                                  variables_only=(w is wfs[2] and ctx.tier == 'quick')))
     explore_loads(ctx, items)
+    explore_stage_loads(ctx, stage_items(ctx.rng, ctx.tier))
     ctx.rule = ('A: a document with at least one schema error; B: a single-fault mutant (drop/rename/add edge/duplicate '
-                'name/unknown key/wrong type: a list or a scalar of another type/remove variable/one more mention among '
-                'the variables) of a generated 2-5 component workflow with aggregating and replicating components; '
+                'name/unknown key/wrong type: a list or a scalar of another type/remove a global or a component-level '
+                'variable/one more mention among the variables) of a generated 2-5 component workflow with aggregating '
+                'and replicating components and chains among the component-level variables; S: the removal of a '
+                'stage-level/component-level/global variable of a generated workflow with stage-level variables; '
                 'C: every (named predicate, value) pair; D: a one-option document on which convert_component_types raises')
     ctx.extra['mutants_per_workflow'] = 'all positions for the structural faults; quick tier samples 6 of %d option ' \
         'sections and 13 of %d option leaves per component, thorough takes all' % (
@@ -1132,7 +1340,8 @@ def replay(ctx, path):
                                                                                   problems, dt))
         bad = (exc not in (None, 'ExperimentInvalidConfigurationError')) or (acc and c.get('fault') not in
                                                                              ('none', 'AddForwardEdge', 'AddVarMention',
-                                                                              'CoercedScalar')) or problems
+                                                                              'CoercedScalar', 'RemoveUnusedCompVar',
+                                                                              'RemoveUnusedStageVar', 'RemoveUnusedVar')) or problems
         if bad:
             print('REPRODUCED: %s' % d.get('what', 'property violation'))
         return 1 if bad else 0
